@@ -34,6 +34,7 @@ type OracleOut struct {
 	Diffs     []Diff         `json:"diffs"`
 	Corpus    int            `json:"corpus_witnesses"`
 	CorpusNow []string       `json:"corpus_witnesses_that_agree_now"`
+	RegrOK    int            `json:"regression_witnesses_agree"`
 	DiffCount map[string]int `json:"diff_count"`
 }
 
@@ -87,6 +88,10 @@ func oracleRun(o Opts, perPlan int, exh bool) OracleOut {
 				out.Corpus++
 				cl, d, _ := evalPair(wc.Case)
 				out.Evals++
+				if cl == 0 && strings.HasPrefix(wc.Finding, "REGRESSION") {
+					out.RegrOK++
+					continue
+				}
 				if cl == 0 {
 					out.CorpusNow = append(out.CorpusNow, wc.Finding+" "+wc.Case.Kind+"."+wc.Case.G+"/"+wc.Case.C+" "+wc.Case.Type)
 					continue
@@ -167,6 +172,7 @@ func main() {
 	writeJSON(filepath.Join(o.Out, "oracle.json"), out)
 	emitCases(o)
 	emitBCases(o)
+	emitMCases(o)
 }
 
 func replay(o Opts) {
